@@ -125,8 +125,10 @@ def make_ops(rng, cfg, profile, tier):
             ops.append({'op': 'MDCEV_COUNT', 'a': [rng.randrange(1, 8), rng.randrange(8)]})
         elif r < 0.94:
             ops.append({'op': 'ROW_SPLIT', 'a': [rng.randrange(64), rng.randrange(64)]})
-        elif r < 0.97:
+        elif r < 0.96:
             ops.append({'op': 'VALUES', 'a': [], 'e': gen_expr(rng, 2)})
+        elif r < 0.98:
+            ops.append({'op': 'GROUPS', 'a': [rng.randrange(64)]})
         else:
             ops.append({'op': 'RNG_ADVANCE', 'a': [rng.randrange(1, 50)]})
     return ops
@@ -433,6 +435,17 @@ class Session:
                 if len(got) != len(want) or any(not ref.close(x, y, 1e-12, 0.0) for x, y in zip(got, want)):
                     ctx.fail('I13.values', f'values_from_database returned {got[:6]} for {want[:6]}')
                 ctx.log(kind, len(got))
+        elif kind == 'GROUPS':
+            import biogeme.tools
+            c = self.cols[a[0] % len(self.cols)]
+            cur_tags = [float(t) for t in self.db.data['tag'].to_list()]
+            by_tag = {r['tag']: r for r in self.rows}
+            seq = [by_tag[t][c] for t in cur_tags]
+            want = 1 + sum(1 for x, y in zip(seq, seq[1:]) if x != y)
+            got = biogeme.tools.count_number_of_groups(self.db.data, c)
+            if got != want:
+                ctx.fail('I13.count', f'count_number_of_groups({c}) = {got}, the column has {want} runs of equal values')
+            ctx.log(kind, c, got)
         elif kind == 'RNG_ADVANCE':
             np.random.random(a[0])
             import random as _r
